@@ -378,6 +378,36 @@ theorem C12_inflight_store_is_a_map (s : Store) (h : UniqueIds s) (r : Rec) (id 
     (∀ x, x ∈ (set s r).1 ↔ x = r ∨ (x ∈ s ∧ x.id ≠ r.id)) ∧ (∀ x, x ∈ (del s id).1 ↔ x ∈ s ∧ x.id ≠ id) :=
   ⟨set_unique s r h, del_unique s id h, mem_set s r, mem_del s id⟩
 
+open Mochi.InflOrder in
+/-- the boundary from the determined side: when the collected records were created in pairwise DIFFERENT seconds, the
+    answer is unique — every list that is a permutation of the collected records and sorted by creation time (that is
+    everything the correspondence driver accepts from `Inflight.GetAll` / `getAll`) IS the model's `getAll`. Together
+    with `C12_equal_seconds_any_order`: the driver's acceptance set is a singleton exactly off F12's boundary. -/
+theorem C12_distinct_seconds_unique_order (s : Store) (imm : Bool) (l : List Rec) (hp : l.Perm (candidates s imm))
+    (hs : l.Pairwise fun a b => a.created ≤ b.created)
+    (hne : ∀ a ∈ candidates s imm, ∀ b ∈ candidates s imm, a.created = b.created → a = b) :
+    l = getAll s imm := by
+  refine List.Perm.eq_of_pairwise (le := fun a b : Rec => a.created ≤ b.created) ?_ hs (getAll_sorted s imm)
+    (hp.trans (getAll_perm s imm).symm)
+  intro a b ha hb hab hba
+  exact hne a (hp.mem_iff.mp ha) b ((mem_getAll s imm b).mp hb) (by omega)
+
+open Mochi.InflOrder in
+/-- the same for the deferred release: with pairwise different creation seconds among the deferred records, the
+    record `NextImmediate` returns is THE oldest one — any deferred record that no deferred record is older than is it -/
+theorem C12_next_immediate_unique (s : Store) (r x : Rec) (h : nextImmediate s = some r)
+    (hx : x ∈ candidates s true) (hmin : ∀ y ∈ candidates s true, x.created ≤ y.created)
+    (hne : ∀ a ∈ candidates s true, ∀ b ∈ candidates s true, a.created = b.created → a = b) : x = r := by
+  have hr := nextImmediate_minimal s r h
+  exact hne x hx r hr.1 (by have := hr.2 x hx; have := hmin r hr.1; omega)
+
+open Mochi.InflOrder in
+/-- non-vacuity: the wrap store's records have pairwise different creation seconds, so its resend order is forced -/
+example : ∀ a ∈ candidates inflWrapStore false, ∀ b ∈ candidates inflWrapStore false, a.created = b.created → a = b := by
+  decide
+
+#print axioms C12_distinct_seconds_unique_order
+#print axioms C12_next_immediate_unique
 #print axioms C12_inflight_store_is_a_map
 #print axioms C12_equal_seconds_any_order
 #print axioms C12_inflight_older_first
